@@ -3,8 +3,8 @@
    byte-identical results follow from LOADER AGREEMENT per format pair.  Stated here about the
    models DateModel (helper.go) and CropParamModel (cropparam.go); only statements, each closed by
    [exact lemma], and Print Assumptions. *)
-From Coq Require Import ZArith List Bool Ascii String.
-From Hermes Require Import Util Num Calendar DateModel DateProofs CropParamModel CropParamProofs SoilModel SoilProofs RotaReaderModel RotaReaderProofs CropSamples C13Proofs.
+From Coq Require Import ZArith List Bool Ascii String Floats.
+From Hermes Require Import Util Num Calendar DateModel DateProofs CropParamModel CropParamProofs SoilModel SoilProofs RotaReaderModel RotaReaderProofs MeasModel MeasProofs CropSamples C13Proofs.
 Local Open Scope Z_scope.
 
 (* the four date formats (with any separator of length <= 1) of one civil date are read as the
@@ -75,6 +75,24 @@ Example C13_rotation_nonvacuous :
             List.length (ro_entries r) = 4%nat /\ List.map (fun e => str_of (re_var e)) (ro_entries r) = (""%string :: "ii"%string :: ""%string :: ""%string :: nil).
 Proof. exact sample_rotation_reads. Qed.
 
+(* measured initial values: the text reader on the text rendering of an abstract measurement set and the
+   CSV reader on its CSV rendering (15 cells per row, the deep ones possibly empty) leave the same
+   initial values — date, day number, the water of the N layers and of layer N+1, the 0-9 dm water
+   sum, the six interval values, the per-layer mineral N with the interval divisors 3, 3, 3, 3, 3 and 5 —
+   for EVERY profile depth N, every plot id, date format, mode column and field capacity / wilting
+   point arrays (runs without automatic fertilisation) *)
+Theorem C13_measurement_agree : forall (T : Type) (NT : Num T) cent f n W WMIN old ident rows, Forall wf_amrow rows ->
+  read_meas_txt (T:=T) cent f n W WMIN old ident (render_meas_txt rows) =
+  read_meas_csv cent f n W WMIN old ident (render_meas_csv rows).
+Proof. exact (@measurement_agree_lemma). Qed.
+
+Example C13_measurement_nonvacuous :
+  Forall wf_amrow sample_meas /\
+  exists m, read_meas_csv (T:=PrimFloat.float) 60 DElong 17 (List.repeat PrimFloat.one 21) (List.repeat PrimFloat.zero 21) nil
+              (lstr_of "ALLE") (render_meas_csv sample_meas) = Ok (Some m) /\
+            mi_nmess m = 1 /\ List.length (mi_cn1 m) = 17%nat /\ List.nth 16 (mi_cn1 m) PrimFloat.zero = PrimFloat.div 7.5%float 5%float.
+Proof. exact sample_meas_reads. Qed.
+
 (* non-vacuity: a complete two-stage classic file satisfies every hypothesis of C13_crop_yaml_agree *)
 Example C13_nonvacuous :
   exists r, convert (T:=PrimFloat.float) sample_lines = Some r /\ r_nrkom r = 2 /\ r_nrentw r = 2 /\
@@ -87,3 +105,4 @@ Print Assumptions C13_bbch_in_range_suffices.
 Print Assumptions C13_bbch_difference_refuted.
 Print Assumptions C13_soil_agree.
 Print Assumptions C13_rotation_agree.
+Print Assumptions C13_measurement_agree.
